@@ -1523,6 +1523,10 @@ pub fn handle_trailer(
         incr!(names::h2::TRAILERS_DROPPED_CONTENT_LENGTH);
     }
 
+    // The fields written into the buffer above are parsed data, like the header
+    // fields of `handle_header`: `Kawa::consume` relies on `head` never being
+    // behind the slices it releases.
+    kawa.storage.head = kawa.storage.end;
     kawa.push_block(Block::Flags(Flags {
         end_body: false,
         end_chunk: false,
